@@ -59,6 +59,8 @@ def installation(gen, rnd, kind=None):
     new_format = rnd.random() < 0.6
     names = [rnd.choice(NAMES)[:8] if gen == 4 else rnd.choice(NAMES) for _ in range(total)]
     names = [n if len(n.encode()) <= (8 if gen == 4 else 16) else "Z" for n in names]
+    # a zone nobody has named: an empty name is a name
+    names = [("" if rnd.random() < 0.12 else n) for n in names]
     inst = C.default_installation(gen, n_acs, tuple(parts), new_format=new_format, names=names)
     meta = {"bitmap": False, "old_multi": False}
     if gen == 4:
